@@ -12,10 +12,20 @@ definition and the node; nothing is skipped silently.  The semantics assumed for
 supported grammar is validated on every run by evaluating the generated definitions and the
 live Python functions on the whole (finite) domain.
 
-Supported statements: docstring, `x = <expr>`, `if/elif/else`, `return <expr>`,
-`try: return D[(a, b)][int(x)]  except IndexError: return None`.
-Supported expressions: names (locals, module constants), True/False/None, int literals,
-`and`/`or`/`not`, `==` on integers, `p.support_lesc()/support_oob()/support_mitm()`, `p.iocap`.
+Supported statements: docstring, `pass`, `x = <expr>` (locals may be named freely, dead stores are harmless),
+`if/elif/else` and chains of early-return `if`s, `return <const | integer local | conditional of those>`,
+`try: return D[(a, b)][<index>]  except IndexError: return None` where <index> is any integer or boolean expression
+of the grammar (a named constant, a local bound on every path that reaches the lookup, `int(b)`, `1 if b else 0`, `b`).
+Supported expressions (typed bool / integer; mixing them the way Python's truthiness would is rejected): names
+(locals, integer constants of smp/constants.py that the SMP module imports by `*` or by name, module-level names of
+the SMP module assigned exactly once to an integer literal), True/False, int literals, `and`/`or`/`not`,
+`==`/`!=`, `in`/`not in` a literal tuple or list, `a if c else b`, `int(x)`, `bool(b)`,
+`p.support_lesc()/support_oob()/support_mitm()`, `p.iocap`, `self.is_initiator()` (get_pin_code only).
+A local assigned only on some paths is unknown on the others (the continuation of an `if` is translated once per
+branch, in that branch's scope), so a use that Python would answer with UnboundLocalError is rejected.
+The VALUE of every such expression in every case is computed by Coq, not here: the obligations (method_sweep etc.)
+are re-proved on the whole domain against whatever text is generated, and the generated definitions are compared
+with the live functions on the whole domain.
 """
 import ast
 import hashlib
@@ -107,54 +117,123 @@ PEER_ATTRS = {"iocap": "p_iocap"}
 
 
 class FnTr:
-    def __init__(self, name, consts, peers, locals_, self_calls=None):
-        self.name, self.consts, self.peers, self.locals = name, consts, peers, set(locals_)
-        self.self_calls = self_calls or {}      # self.<method>() -> Gallina variable
+    """Statement/expression translator.  Expressions are typed ('bool' | 'N'); a construct whose operands do not
+    have the type Python semantics needs here (e.g. truthiness of an integer) is rejected, never guessed."""
+
+    def __init__(self, name, consts, peers, locals_, self_calls=None, rename=None):
+        self.name, self.consts, self.peers = name, consts, peers
+        self.locals = dict(locals_) if isinstance(locals_, dict) else {n: "N" for n in locals_}
+        self.self_calls = self_calls or {}      # self.<method>() -> Gallina boolean variable
+        self.rename = rename or {}              # Python local -> Gallina name
 
     def bad(self, node, why="unsupported node"):
         raise Unsupported("%s: line %d: %s: %s" % (self.name, getattr(node, "lineno", 0), why, ast.dump(node)[:120]))
 
-    def expr(self, e):
+    def texpr(self, e):
+        """-> (Gallina text, type)"""
         if isinstance(e, ast.Constant):
             if e.value is True:
-                return "true"
+                return "true", "bool"
             if e.value is False:
-                return "false"
+                return "false", "bool"
             if isinstance(e.value, int):
-                return "%d" % e.value
+                return "%d" % e.value, "N"
             self.bad(e)
         if isinstance(e, ast.Name):
-            if e.id in self.locals or e.id in self.consts:
-                return e.id
-            self.bad(e, "unknown name")
+            if e.id in self.locals:
+                return self.rename.get(e.id, e.id), self.locals[e.id]
+            if e.id in self.consts:
+                return e.id, "N"
+            self.bad(e, "unknown name (or local not assigned on this path)")
         if isinstance(e, ast.BoolOp):
+            parts = [self.texpr(v) for v in e.values]
+            if any(t != "bool" for _x, t in parts):
+                self.bad(e, "and/or on a non-boolean operand")
             op = " && " if isinstance(e.op, ast.And) else " || "
-            return "(" + op.join(self.expr(v) for v in e.values) + ")"
+            return "(" + op.join(x for x, _t in parts) + ")", "bool"
         if isinstance(e, ast.UnaryOp) and isinstance(e.op, ast.Not):
-            return "(negb %s)" % self.expr(e.operand)
-        if isinstance(e, ast.Compare) and len(e.ops) == 1 and isinstance(e.ops[0], ast.Eq):
-            return "(N.eqb %s %s)" % (self.expr(e.left), self.expr(e.comparators[0]))
+            x, t = self.texpr(e.operand)
+            if t != "bool":
+                self.bad(e, "not on a non-boolean operand")
+            return "(negb %s)" % x, "bool"
+        if isinstance(e, ast.Compare) and len(e.ops) == 1:
+            op = e.ops[0]
+            a, ta = self.texpr(e.left)
+            rhs = e.comparators[0]
+            if isinstance(op, (ast.Eq, ast.NotEq)):
+                b, tb = self.texpr(rhs)
+                if ta != tb:
+                    self.bad(e, "comparison of a boolean with an integer")
+                r = "(%s %s %s)" % ("N.eqb" if ta == "N" else "Bool.eqb", a, b)
+                return (r if isinstance(op, ast.Eq) else "(negb %s)" % r), "bool"
+            if isinstance(op, (ast.In, ast.NotIn)) and isinstance(rhs, (ast.Tuple, ast.List)) and rhs.elts and ta == "N":
+                items = [self.texpr(x) for x in rhs.elts]
+                if any(t != "N" for _x, t in items):
+                    self.bad(e, "membership in a collection of non-integers")
+                r = "(" + " || ".join("(N.eqb %s %s)" % (a, x) for x, _t in items) + ")"
+                return (r if isinstance(op, ast.In) else "(negb %s)" % r), "bool"
+            self.bad(e, "unsupported comparison")
+        if isinstance(e, ast.IfExp):
+            c, tc = self.texpr(e.test)
+            a, ta = self.texpr(e.body)
+            b, tb = self.texpr(e.orelse)
+            if tc != "bool" or ta != tb:
+                self.bad(e, "conditional expression with a non-boolean test or branches of different types")
+            return "(if %s then %s else %s)" % (c, a, b), ta
+        if (isinstance(e, ast.Call) and isinstance(e.func, ast.Name) and e.func.id in ("int", "bool")
+                and len(e.args) == 1 and not e.keywords):
+            x, t = self.texpr(e.args[0])
+            if e.func.id == "int":
+                return (x, "N") if t == "N" else ("(if %s then 1 else 0)" % x, "N")
+            if t == "bool":
+                return x, "bool"
+            self.bad(e, "bool() of an integer")
         if (isinstance(e, ast.Call) and not e.args and not e.keywords and isinstance(e.func, ast.Attribute)
                 and isinstance(e.func.value, ast.Name) and e.func.value.id in self.peers and e.func.attr in PEER_CALLS):
-            return "(%s %s)" % (PEER_CALLS[e.func.attr], e.func.value.id)
+            return "(%s %s)" % (PEER_CALLS[e.func.attr], e.func.value.id), "bool"
         if (isinstance(e, ast.Attribute) and isinstance(e.value, ast.Name) and e.value.id in self.peers
                 and e.attr in PEER_ATTRS):
-            return "(%s %s)" % (PEER_ATTRS[e.attr], e.value.id)
+            return "(%s %s)" % (PEER_ATTRS[e.attr], e.value.id), "N"
         if (self.self_calls and isinstance(e, ast.Call) and not e.args and not e.keywords
                 and isinstance(e.func, ast.Attribute) and isinstance(e.func.value, ast.Name)
                 and e.func.value.id == "self" and e.func.attr in self.self_calls):
-            return self.self_calls[e.func.attr]
+            return self.self_calls[e.func.attr], "bool"
         self.bad(e)
+
+    def expr(self, e):
+        return self.texpr(e)[0]
+
+    def cond(self, e):
+        x, t = self.texpr(e)
+        if t != "bool":
+            self.bad(e, "condition is not a boolean expression (truthiness of an integer is not translated)")
+        return x
 
     def ret(self, e):
         if e is None or (isinstance(e, ast.Constant) and e.value is None):
             return "KNone"
-        if isinstance(e, ast.Name) and e.id in self.consts:
-            return "(KMethod %s)" % e.id
+        if isinstance(e, ast.Name) and (e.id in self.consts or self.locals.get(e.id) == "N"):
+            return "(KMethod %s)" % self.expr(e)
+        if isinstance(e, ast.IfExp):
+            return "(if %s then %s else %s)" % (self.cond(e.test), self.ret(e.body), self.ret(e.orelse))
         self.bad(e, "unsupported return value")
 
+    def index(self, idx):
+        """Tuple index -> Gallina nat.  Any integer expression of the grammar (a named constant, a local bound on
+        every path reaching here, `int(b)`, `1 if b else 0`, ...) or a boolean (Python indexes with True/False as 1/0).
+        Its value in each case is computed by Coq when the obligations are re-proved on the whole domain."""
+        if (isinstance(idx, ast.Call) and isinstance(idx.func, ast.Name) and idx.func.id == "int"
+                and len(idx.args) == 1 and not idx.keywords):
+            x, t = self.texpr(idx.args[0])
+            if t == "bool":
+                return "(if %s then 1%%nat else 0%%nat)" % x
+        x, t = self.texpr(idx)
+        if t == "bool":
+            return "(if %s then 1%%nat else 0%%nat)" % x
+        return "(N.to_nat %s)" % x
+
     def lookup(self, st):
-        """try: return MAPPING[(a, b)][int(x)]  except IndexError: return None"""
+        """try: return MAPPING[(a, b)][<index>]  except IndexError: return None"""
         if not (len(st.body) == 1 and isinstance(st.body[0], ast.Return) and len(st.handlers) == 1
                 and not st.orelse and not st.finalbody):
             self.bad(st, "unsupported try shape")
@@ -169,36 +248,38 @@ class FnTr:
         key, idx = v.value.slice, v.slice
         if not (isinstance(key, ast.Tuple) and len(key.elts) == 2):
             self.bad(key, "mapping key is not a pair")
-        if not (isinstance(idx, ast.Call) and isinstance(idx.func, ast.Name) and idx.func.id == "int"
-                and len(idx.args) == 1 and not idx.keywords):
-            self.bad(idx, "tuple index is not int(<bool>)")
-        return "(dict_tuple_index %s %s %s (if %s then 1%%nat else 0%%nat))" % (
-            MAPPING, self.expr(key.elts[0]), self.expr(key.elts[1]), self.expr(idx.args[0]))
+        ka, ta = self.texpr(key.elts[0])
+        kb, tb = self.texpr(key.elts[1])
+        if ta != "N" or tb != "N":
+            self.bad(key, "mapping key components are not integers")
+        return "(dict_tuple_index %s %s %s %s)" % (MAPPING, ka, kb, self.index(idx))
 
     def block(self, stmts, k):
-        """Gallina expression for `stmts` followed by continuation text `k` (used when the
-        block falls through).  `let` shadowing carries local assignments into `k`."""
+        """Gallina expression for `stmts`; `k()` gives the text of what follows when the block falls through
+        and is evaluated IN THE SCOPE of the falling-through path (`let` shadowing carries the locals assigned
+        on that path; a local that is not assigned on a path is unknown there, i.e. rejected)."""
         if not stmts:
-            return k
+            return k()
         st, rest = stmts[0], stmts[1:]
         if isinstance(st, ast.Expr) and isinstance(st.value, ast.Constant) and isinstance(st.value.value, str):
             return self.block(rest, k)
+        if isinstance(st, ast.Pass):
+            return self.block(rest, k)
         if isinstance(st, ast.Assign) and len(st.targets) == 1 and isinstance(st.targets[0], ast.Name):
             nm = st.targets[0].id
-            if nm in self.consts or nm in self.peers:
+            if nm in self.consts or nm in self.peers or nm in self.self_calls.values():
                 self.bad(st, "assignment shadows a constant/parameter")
-            val = self.expr(st.value)
-            self.locals.add(nm)
-            return "(let %s := %s in\n %s)" % (nm, val, self.block(rest, k))
+            val, ty = self.texpr(st.value)
+            self.locals[nm] = ty
+            return "(let %s := %s in\n %s)" % (self.rename.get(nm, nm), val, self.block(rest, k))
         if isinstance(st, ast.Return):
-            return self.ret(st.value)
+            return self.ret(st.value)        # statements after a return are dead
         if isinstance(st, ast.If):
-            saved = set(self.locals)
-            k2 = self.block(rest, k)
-            self.locals = set(saved)
-            test = self.expr(st.test)
+            saved = dict(self.locals)
+            test = self.cond(st.test)
+            k2 = (lambda: self.block(rest, k))
             a = self.block(st.body, k2)
-            self.locals = set(saved)
+            self.locals = dict(saved)
             b = self.block(st.orelse, k2)
             self.locals = saved
             return "(if %s\n then %s\n else %s)" % (test, a, b)
@@ -207,6 +288,50 @@ class FnTr:
                 self.bad(rest[0], "statement after the final try/except")
             return self.lookup(st)
         self.bad(st)
+
+
+def module_constants(tree, relpath):
+    """Module-level names of `relpath` assigned exactly once, to an integer literal."""
+    count, val = {}, {}
+    for st in tree.body:
+        targets = []
+        if isinstance(st, ast.Assign):
+            targets = st.targets
+        elif isinstance(st, (ast.AugAssign, ast.AnnAssign)):
+            targets = [st.target]
+        for t in targets:
+            for n in ast.walk(t):
+                if isinstance(n, ast.Name):
+                    count[n.id] = count.get(n.id, 0) + 1
+        if (isinstance(st, ast.Assign) and len(st.targets) == 1 and isinstance(st.targets[0], ast.Name)
+                and isinstance(st.value, ast.Constant) and isinstance(st.value.value, int)
+                and not isinstance(st.value.value, bool)):
+            val[st.targets[0].id] = st.value.value
+    for n in ast.walk(tree):          # `global X` anywhere makes X not a constant
+        if isinstance(n, ast.Global):
+            for nm in n.names:
+                count[nm] = count.get(nm, 0) + 2
+    return {k: v for k, v in val.items() if count.get(k) == 1}
+
+
+def visible_constants(tree, consts):
+    """The constants of smp/constants.py that the SMP module really imports (star import or by name), plus the
+    SMP module's own integer constants.  Returns (consts, own)."""
+    vis = {}
+    for st in tree.body:
+        if isinstance(st, ast.ImportFrom) and st.module and st.module.endswith("smp.constants"):
+            for a in st.names:
+                if a.name == "*":
+                    vis.update(consts)
+                elif a.name in consts:
+                    vis[a.asname or a.name] = consts[a.name]
+    own = module_constants(tree, SMP)
+    for k, v in own.items():
+        if k in vis and vis[k] != v:
+            raise Unsupported("constant %s of %s redefines an imported constant with another value" % (k, SMP))
+    own = {k: v for k, v in own.items() if k not in vis}
+    vis.update(own)
+    return vis, own
 
 
 def _find_method(tree, cls, name):
@@ -238,8 +363,9 @@ def translate_selection(repo, consts):
         raise Unsupported("key_generation_method_selection: unexpected signature %r" % args)
     # every local must be assigned before use on every path: we require a first-level
     # assignment before the first `if` for each local name used after the branches
-    tr = FnTr("key_generation_method_selection", consts, ("initiator", "responder"), [])
-    body = tr.block(fn.body, "KNone")
+    vis, _own = visible_constants(tree, consts)
+    tr = FnTr("key_generation_method_selection", vis, ("initiator", "responder"), {})
+    body = tr.block(fn.body, lambda: "KNone")
     text = ("Definition key_generation_method_selection (initiator responder : peer) : kres :=\n %s.\n" % body)
     return text, {"file": SMP, "lines": [fn.lineno, fn.end_lineno], "sha256": _sha(_seg(lines, fn))}
 
@@ -268,14 +394,8 @@ def translate_pin_source(repo, consts):
     if "self_iocap" not in roles.values() or len(set(roles.values())) != len(roles):
         raise Unsupported("%s: the device's own IO capability is not read (or a value is read twice)" % name)
     # the Python local names are mapped to the fixed Gallina parameters self_iocap / peer_iocap
-    tr = FnTr(name, consts, (), list(roles), self_calls={"is_initiator": "is_initiator"})
-    _expr = tr.expr
-
-    def expr(e):
-        if isinstance(e, ast.Name) and e.id in roles:
-            return roles[e.id]
-        return _expr(e)
-    tr.expr = expr
+    vis, _own = visible_constants(tree, consts)
+    tr = FnTr(name, vis, (), {n: "N" for n in roles}, self_calls={"is_initiator": "is_initiator"}, rename=roles)
 
     def classify(stmts):
         calls = set()
@@ -302,7 +422,7 @@ def translate_pin_source(repo, consts):
                           % (name, sorted(calls), rng))
 
     def cond(node):
-        test = tr.expr(node.test)
+        test = tr.cond(node.test)
         a = classify(node.body)
         if len(node.orelse) == 1 and isinstance(node.orelse[0], ast.If):
             b = cond(node.orelse[0])
@@ -340,6 +460,11 @@ def generate(repo):
     out.append("\n(* %s lines %d-%d sha256 %s *)" % (CONSTANTS, c["tie"]["lines"][0], c["tie"]["lines"][1], c["tie"]["sha256"][:16]))
     out.append("Definition %s : list ((N * N) * list N) := [\n%s\n]." % (
         MAPPING, ";\n".join("  ((%d, %d), [%s])" % (a, b, "; ".join("%d" % m for m in ms)) for (a, b), ms in c["mapping"])))
+    _vis, own = visible_constants(ast.parse(open(os.path.join(repo, SMP)).read()), c["consts"])
+    if own:
+        out.append("\n(* integer constants of %s *)" % SMP)
+        for nm in sorted(own):
+            out.append("Definition %s : N := %d." % (nm, own[nm]))
     out.append("\n(* %s lines %d-%d sha256 %s *)" % (SMP, sel_tie["lines"][0], sel_tie["lines"][1], sel_tie["sha256"][:16]))
     out.append(sel_text)
     out.append("(* %s lines %d-%d sha256 %s *)" % (SMP, pin_tie["lines"][0], pin_tie["lines"][1], pin_tie["sha256"][:16]))
